@@ -8,7 +8,7 @@ from .c06 import odd_trees
 
 MANIFEST = dict(
     technique="runtime contract on apply_to (entry shadow + path, exit link/arity audit, positional comparison of every subtree hanging off the path to the rewritten node, variable set) and on the search-agent step clone_from_root+apply_to (identity shadow of the original before/after, object disjointness)",
-    text="Every rule application is audited at exit: root without parent, mutually consistent parent/child links, no node object reached twice, arity of every operator, unchanged variable set, and every subtree off the path root..parent(node) (grandparent for the rotation rule) structurally identical and in the same place; the harness step additionally decides that the tree the copy was cloned from is bit-for-bit unchanged and shares no node with the result. Long episodes expose dangling pointers and aliased subtrees on later steps. Held on the applications observed.",
+    text="Every rule application is audited at exit: root without parent, mutually consistent parent/child links, no node object reached twice, arity of every operator, unchanged variable set, and every subtree off the path root..parent(node) (grandparent for the rotation rule) structurally identical and in the same place; the harness step (ask can_apply_to on the live node, clone from the root, apply to the clone -- the search-agent pattern) additionally decides that the tree the copy was cloned from is bit-for-bit unchanged and shares no node with the result; in-place chains apply several rules to one evolving tree object. Long episodes expose dangling pointers and aliased subtrees on later steps. Held on the applications observed.",
     note="Trusts our link audit and shadows. For balanced move (which restructures both sides) the positional context clause is replaced by audit + variable set + original-unmodified.",
     ref="DESIGN.md 3/C07",
 )
